@@ -349,8 +349,21 @@ class _Writer(_Reader):
 
 
 class _Gz:
-    def __init__(self, filename=None, **kw):
+    """gzip.GzipFile(filename=...) as the loader uses it: a handle that np.loadtxt reads; usable as a context manager"""
+
+    def __init__(self, filename=None, mode="rb", **kw):
         self.path = filename
+        self.closed = False
+
+    def close(self):
+        self.closed = True
+
+    def __enter__(self):
+        return self
+
+    def __exit__(self, *exc):
+        self.close()
+        return False
 
 
 # -------------------------------------------------------------------- baton scheduler
